@@ -334,6 +334,81 @@ func c13Rewrite(c c13Case) *Violation {
 	return v
 }
 
+// hookedHash: a digest that calls a hook on its n-th Sum (the moment cache.Open has just finished reading and is
+// about to compare or go on): what another process does to the directory at that moment.
+type hookedHash struct {
+	hash.Hash
+	calls *int
+	at    int
+	hook  func()
+}
+
+func (h hookedHash) Sum(b []byte) []byte {
+	*h.calls++
+	if *h.calls == h.at {
+		h.hook()
+	}
+	return h.Hash.Sum(b)
+}
+
+// c13Swap: while Open is at work on a finished entry, the directory entry is replaced (renamed over by the entry of
+// another key, or unlinked and begun anew by another writer). Open either fails or yields the bytes of the entry it
+// was asked for - never those of the other file, and never a handle whose reads fail.
+func c13Swap(c c13Case) *Violation {
+	dir := filepath.Join(c13Dir(), "swap")
+	os.RemoveAll(dir)
+	os.MkdirAll(dir, 0o755)
+	defer os.RemoveAll(dir)
+	rsum, dsum := c13DigestsFor(c.Seed, c.Hash)
+	orsum, odsum := c13DigestsFor(c.Seed+1000, c.Hash)
+	body := c13Body(c.Body, c.Len, c.Seed)
+	other := c13Body(c.Body, c.Len+13, c.Seed+5)
+	var v *Violation
+	if pi := guard(func() {
+		for _, e := range []struct {
+			r, d []byte
+			b    []byte
+		}{{rsum, dsum, body}, {orsum, odsum, other}} {
+			f, err := cache.CreateLevel(dir, c13NewHash(c.Hash), e.r, e.d, c.Level)
+			if err != nil {
+				v = viol("create", "CreateLevel failed: %v", err)
+				return
+			}
+			f.Write(e.b)
+			if err := f.Close(); err != nil {
+				v = viol("close", "Close failed: %v", err)
+				return
+			}
+		}
+		path, otherPath := filepath.Join(dir, c13NameFor(rsum, dsum, c.Hash)), filepath.Join(dir, c13NameFor(orsum, odsum, c.Hash))
+		calls := 0
+		hook := func() {
+			if c.Mask == 0 {
+				os.Rename(otherPath, path) // the entry of another key takes this entry's name
+			} else {
+				os.Remove(path) // purged, and a new writer has only got as far as its placeholder header
+				os.WriteFile(path, make([]byte, 3*c13NewHash(c.Hash).Size()), 0o644)
+			}
+		}
+		f, err := cache.Open(dir, hookedHash{c13NewHash(c.Hash), &calls, c.Off, hook}, rsum, dsum)
+		what := fmt.Sprintf("entry of %d bytes (%s) %s during the %d. digest of Open (Open made %d)", len(body), c.Body, []string{"replaced by the entry of another key", "purged and begun anew"}[c.Mask&1], c.Off, calls)
+		if err != nil {
+			if f != nil {
+				f.Close()
+			}
+			return
+		}
+		got, rerr := io.ReadAll(f)
+		f.Close()
+		if rerr != nil || !bytes.Equal(got, body) {
+			v = viol("wrong-bytes", "%s: Open succeeded and reading gave %d bytes, error %v; %d bytes were written under this key", what, len(got), rerr, len(body))
+		}
+	}); pi != nil {
+		return panicViolation("Open while the entry is replaced", pi)
+	}
+	return v
+}
+
 // c13WriteFault: the writer runs in a child process whose file-size limit makes a Write or the final flush fail.
 // Whatever the writer reports, an entry that opens must read back exactly the body; and a writer that reported
 // success must have left an entry that opens.
@@ -511,6 +586,9 @@ func c13Check(c c13Case) *Violation {
 	if c.Fault == "rewrite" {
 		return c13Rewrite(c)
 	}
+	if c.Fault == "swap" {
+		return c13Swap(c)
+	}
 	e, v := c13Make(c)
 	if v != nil {
 		return v
@@ -648,7 +726,7 @@ func c13Classify(c c13Case) (bool, []string) {
 			labels = append(labels, "flip-body")
 			nt = true
 		}
-	case "crash-body", "crash-header", "live", "write-limit", "rewrite":
+	case "crash-body", "crash-header", "live", "write-limit", "rewrite", "swap":
 		nt = true
 	case "prefix", "tail":
 		nt = c.Off >= 3*c13NewHash(c.Hash).Size() || c.Fault == "tail"
@@ -820,6 +898,14 @@ func TestC13(t *testing.T) {
 					if level == levels[0] && seed == seeds[0] {
 						for _, oldLen := range []int{0, 1, b.n / 2, b.n, b.n + 1, 2*b.n + 100, 70000} {
 							if !try(mk("rewrite", oldLen, 0)) {
+								return
+							}
+						}
+					}
+					// the directory entry is replaced while Open is at work (at each of its digest computations)
+					if level == levels[0] && seed == seeds[0] {
+						for k := 1; k <= 6; k++ {
+							if !try(mk("swap", k, 0)) || !try(mk("swap", k, 1)) {
 								return
 							}
 						}
